@@ -399,6 +399,19 @@ class Program:
                 continue      # analysed in the context of each of its call sites
             yield f
 
+    def normal_form(self, f):
+        """the normal form (normalize.py) of one function, whatever the mode of the program"""
+        if self._normalizer is not None:
+            return f.node
+        if getattr(self, '_nz_local', None) is None:
+            from . import normalize
+            self._nz_local = normalize.Normalizer(self)
+            self._nf_cache = {}
+        k = id(f)
+        if k not in self._nf_cache:
+            self._nf_cache[k] = self._nz_local.normalize(f)
+        return self._nf_cache[k]
+
     def enable_normal_form(self):
         """switch every FuncInfo.node to its normal form (normalize.py); helpers that are only ever reached through
         inlined call sites are dropped from all_functions(): they are analysed in the context of their callers"""
